@@ -2681,7 +2681,8 @@ class Processor:
                                 replacement_node)
             elif isinstance(data, (CommentedSeq, list)):
                 for idx, item in enumerate(data):
-                    if data is parent and item is reference_node:
+                    if item is reference_node and (
+                            data is parent or hasattr(item, "anchor")):
                         data[idx] = replacement_node
                     else:
                         recurse(item, parent, parentref, reference_node,
